@@ -103,13 +103,25 @@ func reportFn(fc *FnCtx, work string, timeout int, verbose bool) []*Verdict {
 	}
 	vs := make([]*Verdict, len(fc.obls))
 	scripts := make([]string, len(fc.obls))
+	sliced := make([]string, len(fc.obls))
 	for i, o := range fc.obls {
 		scripts[i] = fc.Query(o, true)
+		sliced[i] = fc.QueryOpt(o, true, true)
 	}
 	var jobs []func()
 	for i := range fc.obls {
 		i := i
-		jobs = append(jobs, func() { vs[i] = Discharge(fc.obls[i], scripts[i], work, timeout, false) })
+		jobs = append(jobs, func() {
+			if len(sliced[i]) < len(scripts[i])*9/10 {
+				v := Discharge(fc.obls[i], sliced[i], work, timeout, false)
+				if v.Status == "proved" {
+					v.Solver += "+slice"
+					vs[i] = v
+					return
+				}
+			}
+			vs[i] = Discharge(fc.obls[i], scripts[i], work, timeout, false)
+		})
 	}
 	pool(16, jobs)
 	for _, v := range vs {
